@@ -90,6 +90,7 @@ Base4(subj) == IF issued = {} THEN (IF subj.fam = "dictzip" THEN 1 ELSE 0) ELSE 
 G4(e, subj) == /\ SeqSubj(subj)
                /\ e.op = "put_batch" /\ ~e.ok
                /\ Accepted4(subj, e.ds) >= 1 /\ Accepted4(subj, e.ds) < Len(e.ds)
+               /\ e.len_after = Cardinality(Live) + Accepted4(subj, e.ds)      \* the orphans are really there
 KF4(e, subj) ==
     /\ G4(e, subj)
     /\ LET k == Accepted4(subj, e.ds)
